@@ -29,7 +29,9 @@ class C09:
     def cases(tier, rng):
         n = 1200 if tier == "quick" else 15000
         k = 0
-        for c in io_histories(tier, rng, n):
+        long_cases = [hist_case(d, True, [["add", 1, 2, 0, 1100 + 37 * d], ["add", 2, 3, 5, None], ["add", 2, 1, 1200, 1230]], src="corpus-long") for d in (0, 1)]
+        import itertools as _it
+        for c in _it.chain(long_cases, io_histories(tier, rng, n)):
             c["io"] = [k % 4, (k // 4) % 4, (k // 16) % 2]   # target, delimiter, encoding: all 32 combinations cycle
             k += 1
             # a four-column file: the same spans written as rows u v t e
@@ -214,7 +216,9 @@ class C11:
     @staticmethod
     def cases(tier, rng):
         n = 1500 if tier == "quick" else 20000
-        for c in io_histories(tier, rng, n):
+        for j, c in enumerate(io_histories(tier, rng, n)):
+            if j % 3 == 0:
+                c["ids"] = "jstr"
             c["gattr"] = rng.choice([0, 0, 3, 7])
             c["dflt"] = rng.choice([0, 1])
             yield c
@@ -331,7 +335,14 @@ def noisy_file(rng, kind, delim, directed=False):
             txt = sep.join([str(u), str(v), "+" if row[2] else "-", str(t)])
         if rng.random() < 0.04 and not bad:
             # a field that cannot be converted: everything up to here is parsed, then TypeError
-            txt = txt.replace(str(row[0]), "x%d" % row[0], 1) if rng.random() < 0.5 else sep.join(txt.split(sep)[:2] + (["z"] if kind == 0 else [txt.split(sep)[2], "z"]))
+            r3 = rng.random()
+            parts = txt.split(sep)
+            if kind == 0 and len(parts) >= 4 and r3 < 0.4:
+                txt = sep.join(parts[:3] + ["w0.5"] + parts[4:])       # the vanishing time does not convert
+            elif r3 < 0.7:
+                txt = txt.replace(str(row[0]), "x%d" % row[0], 1)
+            else:
+                txt = sep.join(parts[:2] + (["z"] if kind == 0 else [parts[2], "z"]))
             lines.append(txt + "\n"); bad = True
             break
         if rng.random() < 0.25:
@@ -380,7 +391,8 @@ class C18:
             noise = []
             if rng.random() < 0.4:
                 for _ in range(rng.randint(1, 3)):
-                    noise.append([rng.randint(0, len(rows)), rng.choice([[], ["#", "1", "2", "99"], ["#"], ["1", "2"]])])
+                    noise.append([rng.randint(0, len(rows)), rng.choice([[], ["#", "1", "2", "99"], ["#"], ["1", "2"], ["1", "2", "1", "5", "77"], ["1", "2", "1", "55", "7", "8"]] if kind == 1 else
+                                                                        [[], ["#", "1", "2", "99"], ["#"], ["1", "2"], ["7"]])])
             yield {"kind": "keys", "rk": kind, "cls": cls, "rows": rows, "noise": noise, "src": "rand-keys"}
 
     @staticmethod
